@@ -174,8 +174,8 @@ class ConcatenatedObject(Concatenated, ObjectBase):
 
         :param children: List of children to remove.
         """
-        if not isinstance(children, list):
-            children = [children]
+        # the request may be the list of children itself: work on a snapshot
+        children = list(children) if isinstance(children, list) else [children]
 
         for child in children:
             if child not in self._children:
